@@ -1,11 +1,11 @@
 (** C13 — Parser positions always describe where its remainder sits in the original string.
     Statements only.
 
-    NOT YET PROVED here: that both offsets are CHAR BOUNDARIES of the original (needs the
-    UTF-8 boundary lemmas of Proofs/Utf8Proofs.v; covered by the correspondence run, whose
-    inputs are valid UTF-8 with multi-byte characters).  parse_u8 .. parse_isize / parse_bool are
+    Both halves are proved: the position invariant ([Inv], for arbitrary byte strings) and, for
+    valid UTF-8 originals and patterns, that both offsets are CHAR BOUNDARIES of the original
+    ([BInv], Proofs/SafetyProofs.v).  parse_u8 .. parse_isize / parse_bool are
     operations of the model ([OParseInt w sg], [OParseBool]; their bodies are Model/ParseInt.v). *)
-From KV Require Import Base.Prelude Model.Parser Proofs.ParserProofs.
+From KV Require Import Base.Prelude Model.Utf8 Spec.Utf8 Model.Parser Proofs.ParserProofs Proofs.SafetyProofs.
 
 (** [Parser::new] / [with_start_offset] establish the invariant ... *)
 Theorem C13_inv_init : forall orig base, bounds orig base -> Inv orig base (parser_with_start_offset orig base).
@@ -25,6 +25,22 @@ Theorem C13_inv_reachable : forall orig base, bounds orig base -> forall ops p,
   Inv orig base p -> trace_ok orig base p ops (run_ops p ops).
 Proof. exact inv_reachable. Qed.
 
+(** ... and both offsets are character boundaries of the original: [BInv] = [Inv] plus
+    [is_char_boundary orig (start - base)] and [is_char_boundary orig (end - base)] *)
+Theorem C13_boundaries_init : forall orig base, utf8 orig = true -> bounds orig base ->
+  BInv orig base (parser_with_start_offset orig base).
+Proof. exact binv_init. Qed.
+Theorem C13_boundaries_step : forall orig base p o v q,
+  utf8 orig = true -> bounds orig base -> op_pat_valid o -> BInv orig base p ->
+  step p o = POk v q -> BInv orig base q.
+Proof. exact binv_step. Qed.
+Theorem C13_boundaries_reachable : forall orig base, utf8 orig = true -> bounds orig base -> forall ops p,
+  ops_valid ops -> BInv orig base p ->
+  Forall (fun r => match r with POk _ q => BInv orig base q /\ utf8 (p_str q) = true | _ => True end) (run_ops p ops).
+Proof. exact binv_reachable. Qed.
+Theorem C13_BInv_gives_Inv : forall orig base p, BInv orig base p -> Inv orig base p.
+Proof. exact BInv_Inv. Qed.
+
 (** the hypothesis base + len < 2^32 is necessary: the offsets are u32 *)
 Theorem C13_offsets_wrap_refuted : exists base, p_start (parser_with_start_offset [97] base) <> base.
 Proof. exact parser_offsets_wrap_refuted. Qed.
@@ -33,4 +49,8 @@ Print Assumptions C13_inv_init.
 Print Assumptions C13_inv_init_new.
 Print Assumptions C13_inv_step.
 Print Assumptions C13_inv_reachable.
+Print Assumptions C13_boundaries_init.
+Print Assumptions C13_boundaries_step.
+Print Assumptions C13_boundaries_reachable.
+Print Assumptions C13_BInv_gives_Inv.
 Print Assumptions C13_offsets_wrap_refuted.
